@@ -1,4 +1,101 @@
-// slice `override_reassign`: Schedule::override_reassign (solution/src/schedule/modifications.rs) -- SKELETON
+// slice `override_reassign`: Schedule::override_reassign (solution/src/schedule/modifications.rs), "Remove segment from
+// provider's tour and inserts the nodes into the tour of receiver vehicle.  All conflicting nodes are removed from the tour
+// and in the case that there are conflicts a new dummy tour is created.", verbatim body.
+//   C13  "Each schedule modification has its documented effect and nothing else: the provider loses exactly the moved nodes,
+//        the receiver gains them (override) …, displaced or removed service trips are handed back (… in a new dummy tour), a
+//        vehicle left without activities disappears, … and all other vehicles' tours, formations elsewhere and the input
+//        schedule itself stay untouched"
+//   C10 / C03  "a vehicle is in the formation of a node exactly if its tour contains the node"
+//   C09  "cached aggregates equal recomputation" (costs, depot usage, unserved passengers, maintenance violation)
+//   C01  type clause: "a vehicle only serves departure segments whose route prescribes its own vehicle type"
+// Vocabulary in env/override_reassign_shim.vs.  p = provider, r = receiver, tp / tr = their old tours, lo / hi = the
+// positions of the segment's ends in tp, M = or_moved = tp.mid(lo, hi + 1) (the moved nodes), kept = tp.rest(lo, hi + 1),
+// n = or_ins = what tr takes of M (a dummy tour takes no depots), (s, e) = THE insert positions of n in tr (ins_pos;
+// lemma_ins_unique: C12 "longest prefix … / longest suffix …" determine them), D = or_displaced = tr.mid(s, e) (the DISPLACED
+// nodes), gained = tr.spliced(s, e, n).
+// Contract on Ok((res, nd)) -- every clause is an `ensures` line of its own (on Err nothing is claimed but (4), (5)):
+//   (4) C01.override_reassign.refuses_incompatible_segment: or_compatible: if r is real and p is not a real vehicle of the
+//       same type, every moved node is compatible with r's type (the guarantee of check_receiver_type_compatibility);
+//       Ok only if Tour::remove accepts the segment (or_removes);
+//   (5) C13.override_reassign.refuses_instead_of_reusing_an_id: a displaced service trip and vehicle_counter > 0xffff ==> Err;
+//   (1) C13.override_reassign.provider_loses_receiver_gains_displaced_go_to_new_dummy:
+//       or_provider_after: p's tour in res is a tour with nodes == kept (same kind, same map, well-formed, caches exact) or p
+//         has no tour, and res.vehicles == vehicles_after(.., tour of p in res): p is deleted iff it is real and has none;
+//       or_receiver_after: r's tour in res has nodes == gained (same kind, same map, well-formed, caches exact);
+//       or_maps_after: res.tours == tours_after(self.tours, ..), res.dummy_tours == dummies_after(self.dummy_tours, ..) plus --
+//         iff D contains a service trip -- ONE new entry under Dummy(self.vehicle_counter): map equalities, every other key
+//         untouched (lemma_frame of env/update_tours_shim.vs); res.network == self.network;
+//       or_dummy_after: iff D contains a service trip: nd == Some(that id), the id is fresh, its tour holds svc_filter(D) (what
+//         Tour::new_dummy keeps) in order, is a dummy tour over the schedule's network with exact caches, counter + 1; else nd
+//         is None and the counter is unchanged;
+//       or_lists_after: a deleted provider leaves its list, the new dummy id enters the sorted dummy list;
+//       C10.override_reassign.listings_still_sorted_and_matching / ids_stay_valid: listings_ok and ids_valid hold for res;
+//   (2) formations, node by node (or_form_mid(n) = the formation after the first update: repl_seq(old, p -> r) for a moved
+//       non-depot node, the old formation otherwise; or_rcv_leaves(n) = r is real and n is a displaced non-depot node):
+//       C13.override_reassign.formations_elsewhere_untouched: same key set; neither moved nor or_rcv_leaves ==> same formation;
+//       C10.override_reassign.moved_nodes_provider_replaced_by_receiver: moved and not or_rcv_leaves ==> or_form_mid(n), and
+//         that replacement succeeded (repl_ok);
+//       C10.override_reassign.receiver_leaves_formations_of_displaced_nodes: or_rcv_leaves(n) ==> r is in or_form_mid(n) and
+//         the formation is or_form_mid(n) without r's first occurrence -- INDEPENDENT of whether a dummy tour is created.
+//       M and D need NOT be disjoint (p and r may both cover a trip): the clauses are the sequential composition;
+//   (3) C09.override_reassign.costs_delta_exact (or_costs_after), .depot_usage_exact (usage_exact for res),
+//       .unserved_passengers_delta_exact (or_unserved_after: the delta of the first update, then the one of the second on the
+//       table the first one leaves), .maintenance_violation_exact (or_transitions_after: transitions consistent with the new
+//       tours, membership, violation == from-scratch sum, types of neither participant untouched).
+//
+// ASSUMPTIONS introduced / used by this slice:
+//   A-stub   every callee is a trusted stub with EXACTLY the contract text of the slice that verifies its body (hashes
+//            checked against build/*.map.json): Schedule::{is_vehicle, tour_of} (depot_usage), check_receiver_type_compatibility,
+//            update_transitions_and_violation_fast (sched_guard), update_tours (update_tours), update_train_formation
+//            (train_formation_update), add_dummy_tour, Tour::new_dummy (remove_segment), Tour::insert_path (tour_mod).
+//            Verified here (verbatim bodies, text as in remove_segment): Schedule::new, Schedule::next_free_idx,
+//            VehicleIdx::dummy_from.
+//   A-stub+  NEW: Tour::remove carries the contract of slice tour_mod PLUS ONE clause that tour_mod does not state:
+//            `r is Ok ==> r->Ok_0.1.network == self.network` (the removed path carries the tour's network: both returns build
+//            it with `Path::new_trusted(removed_nodes, self.network.clone())`).  Needed for the precondition `path.network ==
+//            self.network` of Tour::insert_path.  Checked: a scratch copy of slices/tour_mod.vs with this clause added
+//            verifies (Tour::remove, 22 s); until tour_mod.vs has it, it is an assumption (contract hash differs).
+//   A-iter   Path::iter, Tour::all_nodes_iter: stubs returning SeqIter (text of slices/sched_guard.vs / spawn_vehicle.vs);
+//            all_nodes_iter is not called by the code under contract (present so that a tree that calls it still type-checks).
+//            NEW `SeqIter<&T>::cloned` (external_body: item-wise clone == the item; `moved_nodes.iter().cloned()`, R5).
+//   A-iter / R12  `moved_nodes: impl Iterator<Item = NodeIdx>` of update_tours is retyped to SeqIter<NodeIdx>; the one of
+//            update_train_formation to `impl node_items::NodeItems` (NEW, env/override_reassign_shim.vs): any iterator over
+//            NodeIdx, `moved_nodes@` = the items it will yield (vstd's IteratorSpec::remaining; for SeqIter its view) --
+//            the same assumption, but a call site that hands in `Vec::into_iter()` still type-checks.  Contract text / hash
+//            unchanged.
+//   A-display `{}` of Segment (DisplaySpecImpl, no-op Display impl outside verus!; text of slices/remove_segment.vs).
+//   A-im / A-std7 / A-derive  as in slices/update_tours.vs (env/im_shim.vs, env/depot_usage_shim.vs, env/update_tours_shim.vs:
+//            im::HashMap / HashSet shims incl. clone, Index / IndexMut, binary_search, Ord of VehicleIdx, Vehicle::clone);
+//            vstd's specifications of Vec::clone, Arc::clone, `vec!`, Result / Option.
+//   plus the shared env: env/model_fns.vs, env/time_ops.vs, env/dist_ops.vs included trusted; env/broadcast_model.vs;
+//            env/transition_spec.vs (in a module `trs` of its own: it re-declares sp_start_depot / max0).
+//   Copied vocabulary (files that cannot be included next to env/depot_usage_shim.vs): see the header of
+//            env/override_reassign_shim.vs.
+//   vx rewrites applied to the body: R5 (`moved_nodes.iter()` -> `.viter()`), R2 (pub).
+//
+// PRECONDITIONS the caller must guarantee (Schedule::or_pre, or_pre_move, or_pre_displace; each clause is commented in the shim):
+//   * provider != receiver (the bookkeeping runs once per vehicle; Neighborhood::segment_exchange_iterator "skip[s] provider as
+//     receiver");
+//   * C10 ids (ids_ok): real vehicles have `Vehicle` ids, are stored under their own id and have a tour; dummy ids are `Dummy`
+//     ids below the counter; the dummy list is sorted;
+//   * part_ok(p), part_ok(r): a vehicle or a dummy of self, not both; its tour is well-formed over the schedule's network
+//     (C01 / C10), its caches are exact (C09), at most 2^17 + 2 nodes (A-len); a real vehicle has a real tour and its type
+//     has a transition;
+//   * the segment is a segment of the provider's tour that is not made of depots only (the two `unwrap`s of the type guard);
+//   * C10 listings_ok, C09 usage_exact for the whole schedule;
+//   * C09 / magnitudes: self.costs covers the old tours of the real participants; self.costs + spec_costs(kept) +
+//     spec_costs(gained) fits into u64;
+//   * or_transitions_ok: C15 / C10 / C09 for the rotation cycles (one transition per type, consistent with the tours, exact
+//     membership, violation == sum), at most 2^17 - 2 vehicles;
+//   * or_counters_ok (A-counter): the maintenance counters of the two new tours are small;
+//   * or_pre_move: tfu_pre (slices/train_formation_update.vs) for (Some(p), self.vehicles.get(&r).cloned(), M);
+//   * or_pre_displace: if r is real and D is not made of depots only: tfu_pre for (Some(r), None, D) on EVERY table / pair
+//     the first update may leave (or_between).
+//
+// NOT covered: on Err nothing is claimed except (4) / (5) (in particular not WHEN the formation updates refuse: Ok <==> all_ok is
+//   available from the stubs but not exported); when Tour::remove returns None for the provider (its contract does not say);
+//   that the callers establish the preconditions; that M and D are disjoint (not needed); connectivity of the new dummy tour
+//   (A-path / D9, see slices/remove_segment.vs); the input schedule `self` is `&self` (untouched by the type system).
 #![feature(allocator_api)]
 use vstd::prelude::*;
 use std::ops::Add;
@@ -125,6 +222,10 @@ use self::trs::*;
         r is Ok && r->Ok_0.0 is Some ==> r->Ok_0.0->Some_0.is_dummy == self.is_dummy && r->Ok_0.0->Some_0.network == self.network
             && r->Ok_0.0->Some_0.wf(), // @obl C01.remove.wf
         r is Ok && r->Ok_0.0 is Some ==> r->Ok_0.0->Some_0.caches_ok(), // @obl C09.remove.caches
+        // C13: "a vehicle left without activities disappears": no tour is returned exactly when nothing (dummy) resp.
+        // nothing but the two depots (real vehicle) would be left
+        r is Ok ==> (r->Ok_0.0 is None <==> (if self.is_dummy { self.rest(self.index_of(segment.start), self.index_of(segment.end) + 1).len() == 0 }
+            else { self.rest(self.index_of(segment.start), self.index_of(segment.end) + 1).len() <= 2 })), // @obl C13.remove.no_tour_iff_no_activity_left
         r is Ok ==> r->Ok_0.1.network == self.network,
 //@end
 //@item solution/src/tour/modifications.rs Tour::insert_path : trusted
